@@ -42,8 +42,9 @@ static std::vector<bool> mutex_rec;
 static std::vector<int> sem_cap;
 static int ncv = 0;
 static std::vector<int> bar_size;
-static int nmbox = 0;
+static std::vector<int> mbox_perm; // permanent receiver (actor number) of each mailbox, 0 = none
 static int nmq   = 0;
+static bool timed = false; // timed platform: one host per actor, dedicated FATPIPE link, exact durations
 static std::vector<ActorSpec> actors;
 
 static std::vector<sg4::MutexPtr> mutexes;
@@ -106,16 +107,18 @@ static void run_actor(int idx)
 {
   const ActorSpec& spec = actors[idx];
   long me               = sg4::this_actor::get_pid();
-  std::vector<sg4::CommPtr> comms;       // async handles of this actor, by creation order
-  std::vector<Payload**> recv_slots;     // reception buffers of async gets
-  std::vector<sg4::MessPtr> messes;
+  std::vector<sg4::ActivityPtr> handles; // asynchronous activities of this actor, by creation order
+  std::vector<Payload**> slots;          // reception buffer of each handle (nullptr for sends and execs)
+  auto mkpay = [&](size_t k, long size) { return new Payload{me, static_cast<long>(k), size, me * 1000 + static_cast<long>(k)}; };
+  auto payval = [](const Payload* p) { return p == nullptr ? -1 : (p->check == p->sender * 1000 + p->seq ? p->check : -2); };
   if (spec.daemon)
     sg4::Actor::self()->daemonize();
   for (size_t k = 0; k < spec.ops.size(); k++) {
     const Op& op = spec.ops[k];
     simgrid_verif_log("{\"e\":\"issue\",\"a\":%ld,\"k\":%zu,\"op\":\"%s\"}\n", me, k + 1, op.name.c_str());
     std::string res = "ok";
-    long val        = 0; // extra integer result (payload id, flag...)
+    long val        = 0; // payload identity received (sender * 1000 + operation number)
+    long flag       = 0; // other integer result (barrier serial flag, size carried by the payload)
     try {
       const std::string& n = op.name;
       if (n == "lock")
@@ -140,11 +143,61 @@ static void run_actor(int idx)
       else if (n == "bcast")
         cvs[op.a[0] - 1]->notify_all();
       else if (n == "bar")
-        val = bars[op.a[0] - 1]->wait();
+        flag = bars[op.a[0] - 1]->wait();
       else if (n == "sleep")
         sg4::this_actor::sleep_for(op.a[2] * TICK);
       else if (n == "yield")
         sg4::this_actor::yield();
+      else if (n == "put")
+        mboxes[op.a[0] - 1]->put(mkpay(k + 1, op.a[2]), op.a[2]);
+      else if (n == "puta") {
+        handles.push_back(mboxes[op.a[0] - 1]->put_async(mkpay(k + 1, op.a[2]), op.a[2]));
+        slots.push_back(nullptr);
+      } else if (n == "putd")
+        mboxes[op.a[0] - 1]->put_init(mkpay(k + 1, op.a[2]), op.a[2])->detach();
+      else if (n == "get") {
+        const Payload* p = mboxes[op.a[0] - 1]->get<Payload>();
+        val              = payval(p);
+        flag             = p->size;
+      } else if (n == "geta") {
+        slots.push_back(new Payload*(nullptr));
+        handles.push_back(mboxes[op.a[0] - 1]->get_async<Payload>(slots.back()));
+      } else if (n == "mput")
+        mqs[op.a[0] - 1]->put(mkpay(k + 1, 0));
+      else if (n == "mputa") {
+        handles.push_back(mqs[op.a[0] - 1]->put_async(mkpay(k + 1, 0)));
+        slots.push_back(nullptr);
+      } else if (n == "mget") {
+        const Payload* p = mqs[op.a[0] - 1]->get<Payload>();
+        val              = payval(p);
+      } else if (n == "mgeta") {
+        slots.push_back(new Payload*(nullptr));
+        handles.push_back(mqs[op.a[0] - 1]->get_async<Payload>(slots.back()));
+      } else if (n == "exec")
+        sg4::this_actor::execute(op.a[2] * 1024.0);
+      else if (n == "execa") {
+        handles.push_back(sg4::this_actor::exec_async(op.a[2] * 1024.0));
+        slots.push_back(nullptr);
+      } else if (n == "wait" || n == "waitfor" || n == "test") {
+        size_t h = op.a[0] - 1;
+        if (h >= handles.size()) {
+          fprintf(stderr, "kdrv: no such handle\n");
+          abort();
+        }
+        bool got = true;
+        if (n == "wait")
+          handles[h]->wait();
+        else if (n == "waitfor")
+          handles[h]->wait_for(op.a[2] * TICK);
+        else {
+          got = handles[h]->test();
+          res = got ? "true" : "false";
+        }
+        if (got && slots[h] != nullptr) {
+          val  = payval(*slots[h]);
+          flag = *slots[h] ? (*slots[h])->size : -1;
+        }
+      }
       else {
         fprintf(stderr, "kdrv: unknown op %s\n", n.c_str());
         _exit(4);
@@ -163,8 +216,8 @@ static void run_actor(int idx)
     } catch (const simgrid::Exception& e) {
       res = "exception";
     }
-    simgrid_verif_log("{\"e\":\"ret\",\"a\":%ld,\"k\":%zu,\"res\":\"%s\",\"val\":%ld,\"clk\":%ld,%s}\n", me, k + 1,
-                      res.c_str(), val, ticks_of(sg4::Engine::get_clock()), projected_state().c_str());
+    simgrid_verif_log("{\"e\":\"ret\",\"a\":%ld,\"k\":%zu,\"res\":\"%s\",\"val\":%ld,\"flag\":%ld,\"clk\":%ld,%s}\n", me, k + 1,
+                      res.c_str(), val, flag, ticks_of(sg4::Engine::get_clock()), projected_state().c_str());
     if (op.name == "trylock" && op.a[1] == 1 && res == "false")
       k++; // "trylock?": a failed attempt skips the next operation (its matching unlock)
   }
@@ -203,8 +256,15 @@ static void parse(const char* path)
       int s;
       ls >> s;
       bar_size.push_back(s);
-    } else if (w == "@mbox")
-      nmbox++;
+    } else if (w == "@mbox") {
+      int r = 0;
+      ls >> r;
+      mbox_perm.push_back(r);
+    } else if (w == "@timed") {
+      int t = 0;
+      ls >> t;
+      timed = t != 0;
+    }
     else if (w == "@mq")
       nmq++;
     else if (w == "@actor") {
@@ -243,12 +303,14 @@ int main(int argc, char** argv)
   std::set_terminate(on_terminate);
 
   auto* zone = e.get_netzone_root();
+  // timed platform: speeds and bandwidth are powers of two so that every duration is an exact number of ticks
   for (int i = 0; i < nhosts; i++)
-    hosts.push_back(zone->add_host("h" + std::to_string(i + 1), 1e9));
-  auto* link = zone->add_link("l", 1e9)->set_latency(0);
+    hosts.push_back(zone->add_host("h" + std::to_string(i + 1), timed ? 1024.0 / TICK : 1e9));
+  auto* link = timed ? zone->add_link("l", 1.0 / TICK)->set_latency(0)->set_sharing_policy(sg4::Link::SharingPolicy::FATPIPE)
+                     : zone->add_link("l", 1e6)->set_latency(1e-4);
   for (int i = 0; i < nhosts; i++)
-    for (int j = i + 1; j < nhosts; j++)
-      zone->add_route(hosts[i], hosts[j], {link});
+    for (int j = i; j < nhosts; j++) // j == i: an actor may send to itself, through the same dedicated link
+      zone->add_route(hosts[i], hosts[j], std::vector<sg4::LinkInRoute>{sg4::LinkInRoute(link)}, i != j);
   zone->seal();
 
   for (bool r : mutex_rec)
@@ -259,7 +321,7 @@ int main(int argc, char** argv)
     cvs.push_back(sg4::ConditionVariable::create());
   for (int s : bar_size)
     bars.push_back(sg4::Barrier::create(s));
-  for (int i = 0; i < nmbox; i++)
+  for (size_t i = 0; i < mbox_perm.size(); i++)
     mboxes.push_back(sg4::Mailbox::by_name("mb" + std::to_string(i + 1)));
   for (int i = 0; i < nmq; i++)
     mqs.push_back(sg4::MessageQueue::by_name("mq" + std::to_string(i + 1)));
@@ -270,8 +332,12 @@ int main(int argc, char** argv)
   sg4::Engine::on_deadlock_cb([]() { log_end("deadlock"); });
   sg4::Engine::on_simulation_end_cb([]() { log_end("normal"); });
 
+  std::vector<sg4::ActorPtr> aptr;
   for (size_t i = 0; i < actors.size(); i++)
-    hosts[actors[i].host % nhosts]->add_actor("a" + std::to_string(i + 1), [i]() { run_actor(i); });
+    aptr.push_back(hosts[actors[i].host % nhosts]->add_actor("a" + std::to_string(i + 1), [i]() { run_actor(i); }));
+  for (size_t i = 0; i < mbox_perm.size(); i++)
+    if (mbox_perm[i] > 0)
+      mboxes[i]->set_receiver(aptr[mbox_perm[i] - 1]);
 
   e.run();
   return 0;
